@@ -51,6 +51,34 @@ CLAIMS.update({
         design='§6 C14, §5'),
 })
 
+CLAIMS.update({
+    'C03': dict(
+        text='Lean 4 theorems: for each of the nine rules, every label (shorter than 2^63) and every usize position: the rule answers true iff the code point at the position is its own and the RFC 5892 Appendix A condition holds (ZWNJ backward/forward transparent scans proved equal to the RFC regular expression for runs of any length); not-applicable iff the code point is not the rule\'s own; undefined only when the position or an inspected neighbour lies outside the label; never a panic. The ten generated virama/script/joining-type tables equal the Unicode 6.3.0 data for every code point (kernel-checked against an independent parse); exactly the CONTEXTJ/CONTEXTO code points of both classes have a registered rule and it is their own. Correspondence: tables and registry at every code point, every rule with thousands (thorough: all 1,111,998 scalars) of code points as inspected neighbour in 10 roles, all labels <= 3 (thorough 4) over 20 class representatives at every offset.',
+        note='Trusted: Lean kernel; transcription of RFC 5892 Appendix A; tools/ucd_spec.py; model of context.rs validated by correspondence.',
+        technique='Lean 4 proof (scan lemmas by induction; kernel-checked table equality by step-function reflection) + exhaustive neighbour/label correspondence',
+        design='§6 C03'),
+    'C04': dict(
+        text='Lean 4 theorems: prepare = width map, non-empty check, IdentifierClass validation (error otherwise); enforce = prepare, then lowercase mapping (case-mapped profile only), NFC, non-empty check, directionality — exactly in this order and nothing else, as an equation between the model pipeline and the composition of the proved step specifications (C11, C10, C09) for every string; every failure of prepare is the result of enforce; an accepted prepare is exactly the width-mapped input. Correspondence: both profiles on all strings <= 3 (thorough 4) over 25 characters chosen so every pair of steps interacts, plus an implementation-level oracle composing the public Rules methods in RFC order.',
+        note='Trusted: Lean kernel; NFC is the executable model of the external crate (validated by correspondence); the directionality step carries the C09 known finding (listed for C04 too).',
+        technique='Lean 4 proof by rewriting with the per-step correctness theorems + differential correspondence with step-interaction alphabets',
+        design='§6 C04'),
+    'C05': dict(
+        text='Lean 4 theorems: OpaqueString.prepare returns its non-empty, FreeformClass-accepted argument unchanged (the first error otherwise); enforce = prepare, map of non-ASCII Zs to U+0020 (nothing else altered before NFC — C12), NFC, reject empty; prepare failures are enforce failures. Correspondence: all strings <= 3 (thorough 4) over 23 characters, all 17 Zs code points in 57 placements, composition oracle.',
+        note='Trusted: Lean kernel; NFC model of the external crate validated by correspondence.',
+        technique='Lean 4 proof by rewriting with C12/C02 theorems + differential correspondence',
+        design='§6 C05'),
+    'C06': dict(
+        text='Lean 4 theorems: Nickname.prepare as C05; one application of the enforcement rules = validate, specSpaces (C12), NFKC, reject empty (case preserved: there is no case step); enforce = stabilize of that round (C13 bound: first + three re-applications); every accepted result is a fixed point reachable in <= 3 re-applications; first stable result is returned; failures and instability are rejected. Correspondence: all strings <= 3 (thorough 4), 27 seeds whose NFKC introduces spaces or further mappings in 20 contexts (1, 2, 3 applications needed — histogram in evidence), orbit followed through the public rules as oracle.',
+        note='Trusted: Lean kernel; NFKC model of the external crate validated by correspondence.',
+        technique='Lean 4 proof (composition + C13 stabilize theorems) + differential correspondence with orbit oracle',
+        design='§6 C06'),
+    'C07': dict(
+        text='Lean 4 theorems for all four profiles: compare(a,b) = first operand\'s error, else second\'s, else equality of canonical forms (enforce; for Nickname the comparison rules with lowercase mapping iterated to stability); true iff both accepted with the same canonical string; reflexive, symmetric, transitive on accepted strings; equals enforce(a) == enforce(b) for usernames and passwords; the omitted empty check in the nickname comparison rules is unobservable. Correspondence: all ordered pairs within families of variants of one name (case, width, spacing, NFC/NFD/NFKC, titlecase, invalid, empty) and sampled pairs; laws re-checked on the implementation\'s own answers.',
+        note='Trusted: Lean kernel; C04-C06/C10 for the canonical forms; carries the C09 known finding for username operands (listed for C07).',
+        technique='Lean 4 proof (case analysis on results; C13) + pair/triple correspondence over variant families',
+        design='§6 C07'),
+})
+
 NOT_YET = {}
 
 
